@@ -228,3 +228,32 @@ m('M16d', 'C05', 'C05.pause', 'coro_queue.h',
         return n;
     }
 };""", 'pause takes the head before re-queueing itself')
+m('M17', 'C06', 'C06.storage-typestate', 'suspend_point.h',
+  """                add(other._ext._handles[i]);
+            }
+            delete [] other._ext._handles;""", """                add(other._ext._handles[i]);
+            }""", 'merge leaks the source array')
+m('M18', 'C06', 'C06.storage-typestate', 'suspend_point.h',
+  """                std::copy(_ext._handles, _ext._handles+count, nh);
+                delete[] _ext._handles;""", """                std::copy(_ext._handles, _ext._handles+count, nh);""", 'growth leaks the old array')
+m('M19', 'C06', 'C06.consumers-clear', 'suspend_point.h',
+  """                coro_queue::instance->push(h);
+            }
+            clear_internal();
+            return out;""", """                coro_queue::instance->push(h);
+            }
+            return out;""", 'await_suspend does not clear')
+m('M20', 'C06', 'C06.types', 'suspend_point.h',
+  "    suspend_point(const suspend_point &) = delete;", "    suspend_point(const suspend_point &) = default;", 'copyable suspend point')
+m('M20b', 'C06', 'C06.source-reset', 'suspend_point.h',
+  """            _local = other._local;
+        }
+        other._count_flag = 0;""", """            _local = other._local;
+        }""", 'move ctor keeps the source armed')
+m('M20c', 'C06', 'C06.storage-typestate', 'suspend_point.h',
+  """        if (_count_flag & 1) [[unlikely]] {
+            delete [] _ext._handles;
+        }
+        _count_flag = 0;""", """        _count_flag = 0;""", 'clear_internal leaks')
+m('M20d', 'C06', 'C06.growth', 'suspend_point.h',
+  "            if (count < inline_count)  [[likely]] {", "            if (count + 1 < inline_count)  [[likely]] {", 'inline capacity off by one (allocates at 3)')
